@@ -27,7 +27,7 @@ func c09IsOutNotifErr(err error, code uint8) bool {
 
 func Verif_C09_state_message_table() {
 	verifEngineOnly()
-	verifNote("full (state, message type) table for OpenSent/OpenConfirm/Established x {OPEN, UPDATE, NOTIFICATION, KEEPALIVE}, optionally with a KEEPALIVE pipelined right behind it, followed by EOF; received NOTIFICATION code/subcode symbolic with data length 0..8; UPDATE body symbolic length 0..32; remote hold time 90 or 0 (symbolic choice; with 0 no hold / keep-alive timer exists in the session); timers do not fire (C06)")
+	verifNote("full (state, message type) table for OpenSent/OpenConfirm/Established x {OPEN, UPDATE, NOTIFICATION, KEEPALIVE}, optionally with a KEEPALIVE pipelined right behind it, followed by EOF; received NOTIFICATION code/subcode symbolic with data length symbolic 0..4075; UPDATE body symbolic length 0..4077 (both up to the 4096-octet maximum); remote hold time 90 or 0 (symbolic choice; with 0 no hold / keep-alive timer exists in the session); timers do not fire (C06)")
 	state := verifChoose("state", 3)
 	typ := uint8(1 + verifChoose("type", 4))
 	cfg := symConfig()
@@ -40,10 +40,10 @@ func Verif_C09_state_message_table() {
 		verifAssume(verifAnd(remoteID>>24 < 224, verifNot(verifAnd(cfg.localAS == cfg.remoteAS, cfg.localID == remoteID))))
 		body = mkOpenBody(cfg.remoteAS, 90, remoteID)
 	case verifMsgUpdate:
-		body = verifBuf("update", 0, 32)
+		body = verifBuf("update", 0, 4077) // up to the largest legal message (4096 octets)
 	case verifMsgNotification:
 		ncode, nsub = verifU8("ncode"), verifU8("nsub")
-		body = append([]byte{ncode, nsub}, verifBuf("ndata", 0, 8)...)
+		body = append([]byte{ncode, nsub}, verifBuf("ndata", 0, 4075)...) // up to the largest legal message
 	}
 	conn := newSymConn("c", mkFrame(typ, body), 1) // frame, then EOF
 	// optionally another complete message pipelined right behind it (the reader may already hold it
